@@ -2,7 +2,8 @@
    get_induced_subgraph returns the induced edge set (C20). *)
 From Coq Require Import List Arith Bool PeanoNat Lia.
 Import ListNotations.
-From BQ Require Import map.Graph map.GraphThm map.GraphExt.
+From Coq Require Import Sorted.
+From BQ Require Import map.Graph map.GraphThm map.GraphExt map.GraphSubThm.
 
 Definition ren_of (loc : list nat) (ren : option (list (nat * nat))) : list (nat * nat) :=
   match ren with Some r => r | None => combine loc (seq 0 (length loc)) end.
@@ -130,6 +131,21 @@ Proof. intros (_ & _ & _ & Hndv & _) u v a Hu Hv.
   eapply snd_inj; eauto using assoc_In. Qed.
 
 (* ---- get_subgraph ------------------------------------------------------------------- *)
+Lemma seq_sorted_lt a n : StronglySorted lt (seq a n).
+Proof. revert a. induction n as [|n IH]; intros a; simpl; constructor; auto.
+  apply Forall_forall. intros x Hx. apply in_seq in Hx. lia. Qed.
+
+(* sort vals = [0; ...; k-1]  <->  vals is a duplicate-free list of k numbers below k *)
+Lemma sort_is_range vals k : sort vals = seq 0 k ->
+  length vals = k /\ NoDup vals /\ forall v, In v vals -> v < k.
+Proof. intros H. split; [|split].
+  - rewrite <- (length_sort vals), H, seq_length. reflexivity.
+  - apply (NoDup_incl_NoDup (l := sort vals)).
+    + rewrite H. apply seq_NoDup.
+    + rewrite length_sort. auto.
+    + intros x Hx. apply (proj1 (In_sort x vals)) in Hx. exact Hx.
+  - intros v Hv. apply (proj2 (In_sort v vals)) in Hv. rewrite H in Hv. apply in_seq in Hv. lia. Qed.
+
 Definition gs_edges (g : adj) (loc : list nat) (R : list (nat * nat)) : list (nat * nat) :=
   flat_map (fun qi => flat_map (fun nb =>
     match assoc qi R, assoc nb R with
@@ -144,8 +160,7 @@ Lemma get_subgraph_eq g loc ren : get_subgraph g loc ren =
   match loc with
   | [] => None
   | _ :: _ =>
-    if negb (Nat.eqb (fold_right Nat.min (hd 0 (map snd (ren_of loc ren))) (map snd (ren_of loc ren))) 0
-             && Nat.eqb (fold_right Nat.max 0 (map snd (ren_of loc ren))) (length loc - 1)) then None else
+    if negb (list_eqb (sort (map snd (ren_of loc ren))) (seq 0 (length loc))) then None else
     if forallb (fun e => Nat.ltb (snd e) (length loc) && negb (Nat.eqb (fst e) (snd e)))
          (gs_edges g loc (ren_of loc ren))
     then Some (gs_edges g loc (ren_of loc ren)) else None
@@ -212,15 +227,13 @@ Proof. intros Hwf Hsym Hlf Hnd Hne Hrange Hbij.
     { apply NoDup_length_incl; auto.
       - rewrite seq_length, map_length. lia.
       - intros x Hx. apply in_seq. specialize (Hvlt x Hx). lia. }
-    assert (H0 : In 0 (map snd (ren_of loc ren))) by (apply Hincl; apply in_seq; lia).
-    assert (Hl : In (length loc - 1) (map snd (ren_of loc ren))) by (apply Hincl; apply in_seq; lia).
-    assert (T4 : Nat.eqb (fold_right Nat.min (hd 0 (map snd (ren_of loc ren))) (map snd (ren_of loc ren))) 0
-             && Nat.eqb (fold_right Nat.max 0 (map snd (ren_of loc ren))) (length loc - 1) = true).
-    { apply andb_true_iff. split; apply Nat.eqb_eq.
-      - pose proof (fold_min_le (hd 0 (map snd (ren_of loc ren))) _ _ H0). lia.
-      - apply Nat.le_antisymm.
-        + apply fold_max_ub. intros x Hx. specialize (Hvlt x Hx). lia.
-        + apply fold_max_ge; auto. }
+    assert (T4 : list_eqb (sort (map snd (ren_of loc ren))) (seq 0 (length loc)) = true).
+    { apply list_eqb_eq. apply sorted_lt_unique.
+      - apply sort_lt; auto.
+      - apply seq_sorted_lt.
+      - intros x. rewrite In_sort. split.
+        + intros Hx. apply in_seq. specialize (Hvlt x Hx). lia.
+        + intros Hx. apply Hincl; auto. }
     rewrite T4. cbn [negb].
     assert (T5 : forallb (fun e => Nat.ltb (snd e) (length loc) && negb (Nat.eqb (fst e) (snd e)))
          (gs_edges g loc (ren_of loc ren)) = true).
@@ -260,12 +273,46 @@ Proof. intros H. rewrite get_subgraph_eq.
   - contradiction.
   - exfalso. rewrite forallb_forall in E3b. specialize (E3b k Hk). apply mem_In in E3b. contradiction. Qed.
 
-(* the code's permutation test only looks at min and max of the values: a non-injective
-   renumbering with min 0 and max k-1 is accepted silently (the docstring promises a
-   ValueError) *)
-Example get_subgraph_weak_permutation_check :
-  get_subgraph [[2]; []; [0]] [0; 1; 2] (Some [(0, 0); (1, 0); (2, 2)]) = Some [(0, 2); (0, 2)].
-Proof. reflexivity. Qed.
+(* the renumbering values must be EXACTLY a permutation of [0, len(location)): a repeated
+   value or a value out of range is rejected (ValueError), whatever the rest looks like *)
+Theorem get_subgraph_rejects_non_permutation g loc ren :
+  (~ NoDup (map snd (ren_of loc ren)) \/ (exists v, In v (map snd (ren_of loc ren)) /\ length loc <= v)) ->
+  get_subgraph g loc ren = None.
+Proof. intros H. rewrite get_subgraph_eq.
+  destruct (nodupb loc && forallb (fun q => Nat.ltb q (length g)) loc); cbn [negb]; [|reflexivity].
+  destruct (Nat.eqb (length (ren_of loc ren)) (length loc)); cbn [negb]; [|reflexivity].
+  destruct (nodupb (map fst (ren_of loc ren)) && forallb (fun k => mem k loc) (map fst (ren_of loc ren)));
+    cbn [negb]; [|reflexivity].
+  destruct loc as [|q0 loc']; [reflexivity|].
+  destruct (list_eqb (sort (map snd (ren_of (q0 :: loc') ren))) (seq 0 (length (q0 :: loc')))) eqn:E;
+    cbn [negb]; [|reflexivity].
+  exfalso. apply list_eqb_eq in E. apply sort_is_range in E as (_ & Hnd & Hlt).
+  destruct H as [H|(v & Hv & Hv')]; [contradiction|]. specialize (Hlt v Hv). lia. Qed.
+
+(* success characterises the renumbering completely: it is a bijection onto [0, len) *)
+Theorem get_subgraph_Some_bij g loc ren es : get_subgraph g loc ren = Some es ->
+  NoDup loc /\ loc <> [] /\ (forall q, In q loc -> q < length g) /\ bij_ren loc (ren_of loc ren).
+Proof. intros H.
+  assert (Hne : loc <> []).
+  { intros ->. rewrite get_subgraph_eq in H. simpl in H.
+    destruct (Nat.eqb (length (ren_of [] ren)) 0); simpl in H; [|discriminate].
+    destruct (nodupb (map fst (ren_of [] ren)) && forallb (fun _ : nat => false) (map fst (ren_of [] ren)));
+      simpl in H; discriminate. }
+  rewrite get_subgraph_eq in H.
+  destruct (nodupb loc && forallb (fun q => Nat.ltb q (length g)) loc) eqn:E1; cbn [negb] in H; [|discriminate].
+  apply andb_true_iff in E1 as [E1a E1b]. apply nodupb_NoDup in E1a.
+  destruct (Nat.eqb (length (ren_of loc ren)) (length loc)) eqn:E2; cbn [negb] in H; [|discriminate].
+  apply Nat.eqb_eq in E2.
+  destruct (nodupb (map fst (ren_of loc ren)) && forallb (fun k => mem k loc) (map fst (ren_of loc ren))) eqn:E3;
+    cbn [negb] in H; [|discriminate].
+  apply andb_true_iff in E3 as [E3a E3b]. apply nodupb_NoDup in E3a.
+  rewrite match_nonempty in H by exact Hne.
+  destruct (list_eqb (sort (map snd (ren_of loc ren))) (seq 0 (length loc))) eqn:E4; cbn [negb] in H; [|discriminate].
+  apply list_eqb_eq in E4. apply sort_is_range in E4 as (_ & Hnd & Hlt).
+  split; auto. split; auto. split.
+  - intros q Hq. rewrite forallb_forall in E1b. apply Nat.ltb_lt. auto.
+  - unfold bij_ren. repeat split; auto.
+    intros k Hk. rewrite forallb_forall in E3b. apply mem_In. auto. Qed.
 
 (* ---- get_induced_subgraph ----------------------------------------------------------- *)
 Lemma In_pairs_of l a b : In (a, b) (pairs_of l) -> In a l /\ In b l.
